@@ -188,6 +188,9 @@ struct Model {
     reg: Vec<u8>,
     present: [bool; NT],
     count: [u64; NT],
+    /// the registration of the type with the address-changing cast was rejected by a panic (an implementation may
+    /// reject it there instead of at the first conversion); the type then counts as not registered
+    rejected_bad: bool,
 }
 
 fn rid(i: u8) -> ResourceId {
@@ -314,9 +317,20 @@ pub fn run_history(h: &[Op17]) -> Result<Vec<u8>, Fail> {
         let fail = |sig: &str, msg: String| -> Fail { (sig.to_string(), msg, step) };
         match *op {
             Op17::Register(i) => {
-                register(&mut t, i);
-                if !m.reg.contains(&i) {
-                    m.reg.push(i);
+                let r = catch_unwind(AssertUnwindSafe(|| register(&mut t, i)));
+                match r {
+                    Ok(()) => {
+                        if !m.reg.contains(&i) {
+                            m.reg.push(i);
+                        }
+                    }
+                    Err(p) => {
+                        if i != 5 {
+                            return Err(fail("register-panicked", format!("{:?} panicked: {}", op, payload_str(&*p))));
+                        }
+                        // rejected at registration: the table must go on working for everybody else
+                        m.rejected_bad = true;
+                    }
                 }
             }
             Op17::Insert(i) => {
@@ -348,9 +362,12 @@ pub fn run_history(h: &[Op17]) -> Result<Vec<u8>, Fail> {
                 }));
                 match r {
                     Err(p) => {
-                        if i != 5 || !registered {
+                        if i != 5 || !(registered || m.rejected_bad) {
                             return Err(fail("meta-get-panicked", format!("{:?} panicked: {}", op, payload_str(&*p))));
                         }
+                    }
+                    Ok(Some(_)) if i == 5 && m.rejected_bad => {
+                        return Err(fail("address-changing-cast-accepted", "the registration of the address-changing cast was rejected by a panic, yet a resource of that type is converted afterwards".to_string()));
                     }
                     Ok(None) => {
                         if registered {
@@ -541,6 +558,7 @@ pub fn run_history(h: &[Op17]) -> Result<Vec<u8>, Fail> {
     key.extend(got);
     key.push(98);
     key.extend(m.reg.iter().copied().filter(|i| *i == 5));
+    key.push(m.rejected_bad as u8);
     key.push(99);
     for i in 0..NT {
         key.push(m.present[i] as u8);
